@@ -72,7 +72,13 @@ def streams(pid, tier, rng, scale=1):
         cnt = BUDGET[tier][len(list(args))] * scale
         if pid == 'C16': cnt = cnt // 8
         if pid == 'C17': cnt = cnt // 4
-        for vals in cases_for(ty, n, args, cnt, rng, TYPES, op=op):
+        # spelling / totality passes reuse the generators of the owning property; cap them per operation (the owning check runs them in full)
+        cap = {'C17': 20000, 'C16': 20000}.get(pid)
+        gen_ = cases_for(ty, n, args, cnt, rng, TYPES, op=op)
+        if cap:
+            allv = list(gen_)
+            gen_ = allv if len(allv) <= cap * scale else rng.sample(allv, cap * scale)
+        for vals in gen_:
             if op == 'clamp':
                 sg = lambda v: v - (1 << n) if v >> (n - 1) else v
                 if sg(vals[1]) > sg(vals[2]): continue      # documented precondition (asserted): min <= max
@@ -112,6 +118,31 @@ def px_streams(pid, tier, rng, scale):
                         cases = [tuple(v << sh for v in triple(N, rng)) for _ in range(per)]
                 else:
                     cases = [tuple(X() if k == 'X' else arg_of(k, N, rng, TYPES) for k in args) for _ in range(per)]
+                # targeted additions (each after a seeded change was missed, DESIGN.md §11)
+                es_x = 1 if ty == 'px1' else 2
+                if pid in ('C13', 'C14') and N >= 4:
+                    from .gen_inputs import ulpscale_pairs, narrowing_sources
+                    import re as _re
+                    low = (1 << sh) - 1
+                    if args == ['X', 'X'] and _re.match(r'(add|sub)', op):
+                        # operands at the alignment edge of each other (early-out thresholds in add_mags / sub_mags)
+                        cases += [(a << sh, b << sh) for a, b in ulpscale_pairs(N, es_x, rng, per * 3 if N >= 28 else per // 2)]
+                    mt = _re.match(r'to_(p8|p16|p32)', op)
+                    if args == ['X'] and mt:
+                        # narrowing out of the generic width: rounding boundaries of the fixed-width target (tie, neighbours, tie +- one bit at
+                        # every position) that are representable in N bits
+                        tn = int(mt.group(1)[1:])
+                        src_all = narrowing_sources(32, tn, es_x, None, 200 if tn > 8 else 700)
+                        sel = [v for (v,) in src_all if v & low == 0]
+                        if len(sel) > 3 * per: sel = rng.sample(sel, 3 * per)
+                        cases += [(v,) for v in sel]
+                    mf = _re.match(r'from_(p8|p16|p32)', op)
+                    if len(args) == 1 and args[0] in TYPES and mf:
+                        sn = TYPES[args[0]]['n']
+                        if (N, es_x) != (sn, {8: 0, 16: 1, 32: 2}[sn]):
+                            src_all = narrowing_sources(sn, N, None, es_x, 24)
+                            sel = src_all if len(src_all) <= 2 * per else rng.sample(src_all, 2 * per)
+                            cases += list(sel)
                 for vals in cases:
                     lines.append('%s %s %x %s' % (ty, op, N, ' '.join('%x' % v for v in vals)))
     return lines
@@ -221,7 +252,9 @@ def extra_streams(pid, tier, rng, scale):
         for ty in TYPES:
             n = TYPES[ty]['n']
             for (a_, b_, args) in forwarders(ty):
-                for vals in cases_for(ty, n, args, 2500 * scale * big, rng, TYPES, op=b_):
+                allv = list(cases_for(ty, n, args, 2500 * scale * big, rng, TYPES, op=b_))
+                if len(allv) > 12000 * scale * big: allv = rng.sample(allv, 12000 * scale * big)
+                for vals in allv:
                     tail = ' '.join('%x' % v for v in vals)
                     lines.append('%s %s %s' % (ty, a_, tail)); lines.append('%s %s %s' % (ty, b_, tail))
     if pid in ('C18', 'C16'):
@@ -261,6 +294,15 @@ def extra_streams(pid, tier, rng, scale):
                 lines.append('%s sample_raw %x %x %x' % (ty, rng.getrandbits(32), rng.getrandbits(32), rng.getrandbits(32)))
             for k in range(0, 1 << 32, 1 << 20):      # sweep the top bits of the first word: every region of the draw range
                 lines.append('%s sample_raw %x %x %x' % (ty, k | rng.getrandbits(20), rng.getrandbits(32), rng.getrandbits(32)))
+        # rand 0.8 maps a raw word w to lo + ((hi-lo)*w >> 32): the top / bottom of each draw's range come from words next to 2^32 / 0.
+        # Every combination of an extreme first draw with each residue class of the second draw (P32E2 XORs a 2-bit second draw).
+        if pid == 'C19':
+            edge = list(range(0, 48)) + list(range((1 << 32) - 64, 1 << 32)) + [(k_ << 24) | d_ for k_ in (0x40, 0x80, 0xc0) for d_ in (0, 1, 0xffffff)]
+            seconds = [0, 0x3fffffff, 0x40000000, 0x7fffffff, 0x80000000, 0xbfffffff, 0xc0000000, 0xffffffff]
+            for ty in ('p8', 'p16', 'p32'):
+                for w1 in edge:
+                    for w2 in seconds:
+                        lines.append('%s sample_raw %x %x %x' % (ty, w1, w2, w2))
         # the private helper of P16E1 sampling on EVERY input of its domain (through the verification hook)
         if pid == 'C19':
             for u in range(1 << 18): lines.append('p16 sub_one %x' % u)
@@ -347,21 +389,22 @@ def agreement_failures(pid, tag):
     """C17: every spelled operation must return the same bits as the inherent operation on the same input"""
     import glob
     if pid != 'C17': return []
-    res = {}
+    res = collections.defaultdict(dict)          # (ty, op) -> {args: result}
     for f in glob.glob(os.path.join(core.WORK, 'runs', tag, 'out_*.txt')):
         for l in open(f):
             if ' => ' not in l: continue
             lhs, r = l.rstrip('\n').split(' => ', 1)
-            ws = lhs.split()
-            res[(ws[0], ws[1], tuple(ws[2:]))] = r
+            ws = lhs.split(' ', 2)
+            res[(ws[0], ws[1])][ws[2] if len(ws) > 2 else ''] = r
     out = []
     for ty in TYPES:
         for (a_, b_, args) in forwarders(ty):
-            for (t, o, av), r in list(res.items()):
-                if t == ty and o == a_:
-                    r2 = res.get((ty, b_, av))
-                    if r2 is not None and r2 != r:
-                        out.append({'kind': 'AGREE', 'ty': ty, 'op': a_, 'args': list(av), 'impl': r, 'want': '%s (= %s.%s)' % (r2, ty, b_), 'line': ''})
+            ra, rb = res.get((ty, a_)), res.get((ty, b_))
+            if not ra or not rb: continue
+            for av, r in ra.items():
+                r2 = rb.get(av)
+                if r2 is not None and r2 != r:
+                    out.append({'kind': 'AGREE', 'ty': ty, 'op': a_, 'args': av.split(), 'impl': r, 'want': '%s (= %s.%s)' % (r2, ty, b_), 'line': ''})
     return out
 
 def distinct_nontrivial(pid, passes):
